@@ -66,6 +66,14 @@ def project(world, keep_pool, keep_t):
     for op in pool + [o for p in progs for o in p]:
         if not op.get("k"):
             op.pop("k", None)
+    if world.get("iso_targets") is not None:
+        tg = []
+        for t in world["iso_targets"]:
+            if t[0] == "P" and t[1] in pmap:
+                tg.append(["P", pmap[t[1]]])
+            elif t[0] == "T" and t[1] in tmap and t[2] in tmap[t[1]][1]:
+                tg.append(["T", tmap[t[1]][0], tmap[t[1]][1][t[2]]])
+        w["iso_targets"] = tg
     w["pool"] = pool
     w["progs"] = progs if progs else [[]]
     w["faults"] = faults
@@ -187,7 +195,7 @@ def _shrink_world(world, persists, budget, log):
         if persists(c2):
             cur = c2
     # freeze isolation targets to nothing if not needed
-    if budget[0] > 0 and cur.get("niso", 1) != 0:
+    if budget[0] > 0 and cur.get("niso", 1) != 0 and not cur.get("iso_targets"):
         c2 = copy.deepcopy(cur)
         c2["niso"] = 0
         budget[0] -= 1
